@@ -24,10 +24,17 @@ theorem accessed_under_lock : allDisciplined = true := by decide +kernel
 example : unguarded [(1, .frozen)] [.wr 1, .goBegin, .rd 1, .goEnd, .wr 1] = [(1, true)] := by decide
 example : unguarded [(1, .workers 2 0)] [.wr 1, .goBegin, .atomic 1, .wgDone 2, .goEnd, .wr 1, .wgWait 2, .rd 1] = [(1, true)] := by decide
 
-/-- The protocol-shape facts the transition systems were written for hold of the current source:
-    abortWriting precedes every mutation and is called under db.Mutex, abortWriting/Save/Close have the modelled
-    shape, save waits for the previous file goroutine, clears WritingInProgress before writingDone.Done,
-    commitTxs clones the outputs and installs the deferred wg.Wait, writeOne publishes ipos last. -/
+/-- The 18 protocol-shape facts the transition systems were written for hold of the synchronisation sequences regenerated
+    from the current source. What each one is: a decidable test on the FLATTENED event list of one function (source order,
+    loop bodies once, block structure as `open`/`close`/`ret`, `neg` = the test of an `if` is a negation):
+    the first `call abortWriting` of CommitBlockTxs / UndoBlockTxs / PurgeUnspendable comes before the first mutation event, is
+    at nesting depth 0 with no `ret` before it (so it is not inside a conditional), and every such call has db.Mutex held;
+    the WHOLE event lists of abortWriting and Save (with block structure and test polarity) equal the modelled shape or its
+    early-return spelling; save waits for the previous file goroutine before it starts its own, touches WritingInProgress
+    exactly once (the final Clr, depth 0) followed by its only writingDone.Done; every store into commitTxs' local output map is
+    a clone; a deferred literal containing wg.Wait is installed before the first `go`; writeOne writes ipos last.
+    NOT pinned by them: conditions other than the polarity of a negation (`if x&1 == 0` vs `if x > 0`), which index of
+    MapMutex guards which bucket, the value assigned to commitTxs' wait flag, the exit test of the file goroutine's loop. -/
 theorem source_protocol_facts : protoFacts = protoFactsOK := by decide +kernel
 
 /-- Meaning of a passed mutex check: if the checker records no new unguarded access, the mutex is in the
@@ -41,7 +48,22 @@ theorem checker_mutex_sound (pol : List (Nat × Guard)) (c : Chk) (x m r s : Nat
   · assumption
   · simp at hb
 
-example : holds { held := [(3, true)] } 3 true = true := by decide
+/- an instance of the theorem: policy `x=7 ↦ mutex 3`, state after `lock 3`: the write is accepted (bad unchanged), and the
+   conclusion is what the theorem says; without the lock the access is recorded -/
+example : (access [(7, .mutex 3 0 0)] (chkStep [] {} (.lock 3)) 7 true).bad = (chkStep [] {} (.lock 3)).bad ∧
+    holds (chkStep [] {} (.lock 3)) 3 true = true := by decide
+example : (access [(7, .mutex 3 0 0)] {} 7 true).bad = [(7, true)] := by decide
+
+/-- joins are pessimistic: a lock taken inside a conditional block is not counted as held after the block (`if c {Lock}; write;
+    if c {Unlock}` is reported), a balanced critical section inside a block is fine, and a block that returns does not reach
+    the join -/
+example : unguarded [(7, .mutex 3 0 0)] [.open, .lock 3, .close, .wr 7, .open, .unlock 3, .close] = [(7, true)] := by decide
+example : unguarded [(7, .mutex 3 0 0)] [.open, .lock 3, .wr 7, .unlock 3, .close, .lock 3, .open, .unlock 3, .ret, .close, .wr 7, .unlock 3] = [] := by decide
+
+/-- `unconditional`: a call inside an `if` body, or after a possible return, is not unconditional -/
+example : unconditional (.call 5) [.lock 1, .call 5, .wr 2] = true ∧
+    unconditional (.call 5) [.lock 1, .open, .call 5, .close, .wr 2] = false ∧
+    unconditional (.call 5) [.lock 1, .open, .ret, .close, .call 5] = false := by decide
 
 /-- (c) For every program of the main goroutine (commits, Idle, AbortWriting, HurryUp, direct Save, Close), every
     program of an auxiliary goroutine (HurryUp, AbortWriting) and EVERY schedule: while the saver goroutine is
@@ -209,7 +231,10 @@ theorem disjoint_updates_commute (us vs : List (Nat × Option Nat)) (hp : us.Per
     (hd : (us.map (·.1)).Nodup) (m : Nat → Option Nat) : applyAll m us = applyAll m vs :=
   GocoinV.Proofs.C11.disjoint_updates_commute us vs hp hd m
 
-example : ([(1, some 5), (2, none)] : List (Nat × Option Nat)).Perm [(2, none), (1, some 5)] := List.Perm.swap _ _ _
+example : ([(1, some 5), (2, none)] : List (Nat × Option Nat)).Perm [(2, none), (1, some 5)] ∧
+    (([(1, some 5), (2, none)] : List (Nat × Option Nat)).map (·.1)).Nodup := ⟨List.Perm.swap _ _ _, by decide⟩
+/- without Nodup the conclusion fails: two updates of ONE key in the two orders -/
+example : applyAll (fun _ => none) [(1, some 5), (1, none)] 1 ≠ applyAll (fun _ => none) [(1, none), (1, some 5)] 1 := by decide
 
 /-- (e) BuildTxListExt: the block weight accumulated with atomic adds is the same for every completion order. -/
 theorem atomic_sum_order_independent (ws vs : List Nat) (h : ws.Perm vs) (b : Nat) :
@@ -244,6 +269,10 @@ theorem chunk_buffers_not_rewritten_in_flight (n cap total : Nat) (h : n = 0 ∨
   ⟨i.clean, i.ok, i.order⟩
 
 example : (Own.Ring.run (Own.Ring.init 0 1 2) [.fill, .send, .recv, .fill, .send, .flush, .recv, .flush]).written = [(0, true), (1, true)] := by decide
+/- the non-trivial branch `cap + 1 ≤ n`: a ring of 3 buffers, channel of 2, 5 chunks, the serialiser running as far ahead as it can -/
+example : (2 : Nat) + 1 ≤ 3 ∧
+    (Own.Ring.run (Own.Ring.init 3 2 5) [.fill, .send, .fill, .send, .recv, .fill, .send, .flush, .recv, .fill, .send, .flush, .recv,
+      .fill, .send, .flush, .recv, .flush, .recv, .flush]).written = [(0, true), (1, true), (2, true), (3, true), (4, true)] := by decide
 
 /-- (g) the bound is tight: with as many buffers as the channel has slots (the "obvious" pool size) there is a schedule in
     which the serialiser refills the buffer whose chunk the file goroutine is still writing — the file gets a damaged chunk. -/
